@@ -229,3 +229,6 @@ def run(ctx):
     from .common import import_obligations
     # moving a particle keeps its parameters (C13.R6)
     import_obligations(ctx, 'C13', 'PAIR', only_rules={'R6'}, floor=4)
+    # the molecules summed over are the group's copies of the site, wrapped into the cell (C15 R2, R3)
+    import_obligations(ctx, 'C15', 'PLACEMENTS', only_rules={'R2', 'R3'}, floor=4)
+
